@@ -469,13 +469,17 @@ fn raw_param(pat: &str, ty_text: &str, kind: &str) -> Value {
 pub const INJECTED: &[&str] = &[
     "AppHandle", "tauri::AppHandle", "State<'_, AppState>", "tauri::State<'_, Db>", "Window<R>", "tauri::Window",
     "WebviewWindow", "tauri::WebviewWindow", "tauri::ipc::Request<'_>", "tauri::State<'_, std::sync::Mutex<Db>>",
-    "AppHandle<R>", "tauri::Manager",
+    "AppHandle<R>",
 ];
 pub const NOT_INJECTED: &[&str] = &["Window", "State", "my::AppState", "Request", "other::Window", "Channel"];
 pub const CHANNELS: &[&str] = &["Channel<{}>", "tauri::ipc::Channel<{}>", "tauri::Channel<{}>"];
 pub const ODD_CHANNELS: &[&str] = &["ipc::Channel<{}>", "my::Channel<{}>"];
 
 fn simple_ty(rng: &mut Rng, names: &[String], depth: usize) -> RTy {
+    simple_ty2(rng, names, depth, false)
+}
+
+fn simple_ty2(rng: &mut Rng, names: &[String], depth: usize, nocomma: bool) -> RTy {
     // CommaSafe + PrecSafe + HarvestSafe by construction (keys are plain, no Option under Vec, no tuples under Result)
     if depth == 0 || rng.chance(1, 3) {
         if !names.is_empty() && rng.chance(1, 2) {
@@ -483,15 +487,27 @@ fn simple_ty(rng: &mut Rng, names: &[String], depth: usize) -> RTy {
         }
         return RTy::Prim(rng.pick(&["String", "i32", "u64", "bool", "f64", "u8"]).to_string());
     }
-    let inner = simple_ty(rng, names, depth - 1);
+    let inner = simple_ty2(rng, names, depth - 1, nocomma);
     let is_opt = matches!(inner, RTy::Opt(_));
     match rng.below(7) {
         0 => RTy::Opt(Box::new(inner)),
         1 | 2 => if is_opt { inner } else { RTy::Vec(Box::new(inner)) },
-        3 => RTy::HMap(Box::new(RTy::Prim("String".into())), Box::new(inner)),
+        3 => if nocomma { inner } else { RTy::HMap(Box::new(RTy::Prim("String".into())), Box::new(inner)) },
         4 => if is_opt { inner } else { RTy::HSet(Box::new(inner)) },
         5 => RTy::Ref(Box::new(inner)),
         _ => inner,
+    }
+}
+
+/// return types on which `add_types_prefix` is exact: a named / primitive type, an array of one, optional
+fn safe_ret(rng: &mut Rng, names: &[String]) -> RTy {
+    let leaf = if !names.is_empty() && rng.chance(2, 3) { RTy::Named(rng.pick(names).clone()) } else { RTy::Prim(rng.pick(&["String", "i32", "bool", "u64"]).to_string()) };
+    match rng.below(5) {
+        0 => leaf,
+        1 => RTy::Vec(Box::new(leaf)),
+        2 => RTy::Opt(Box::new(leaf)),
+        3 => RTy::Opt(Box::new(RTy::Vec(Box::new(leaf)))),
+        _ => RTy::HSet(Box::new(leaf)),
     }
 }
 
@@ -504,7 +520,11 @@ fn any_ty(rng: &mut Rng, names: &[String], depth: usize, adversarial: bool) -> R
     if pool.is_empty() { rty::random(rng, depth) } else { rty::random_named(rng, depth, &pool) }
 }
 
-fn emit_expr(rng: &mut Rng, ev_names: &[&str], type_names: &[String], locals: &[(String, String)]) -> Value {
+fn emit_expr(rng: &mut Rng, ev_names: &[&str], type_names: &[String], locals_all: &[(String, String)], adversarial: bool) -> Value {
+    // the symbol table keeps only the last path segment of a declared type: in the safe stream only
+    // variables of a plain named / primitive type are used as payloads
+    let plain: Vec<(String, String)> = locals_all.iter().filter(|(_, t)| t.chars().all(|c| c.is_alphanumeric() || c == '_')).cloned().collect();
+    let locals: &[(String, String)] = if adversarial { locals_all } else { &plain };
     let recv = match rng.below(9) {
         0 | 1 | 2 => json!({"k": "path", "segs": ["app"]}),
         3 => json!({"k": "path", "segs": ["window"]}),
@@ -525,8 +545,8 @@ fn emit_expr(rng: &mut Rng, ev_names: &[&str], type_names: &[String], locals: &[
         6 if !locals.is_empty() => json!({"k": "ref", "e": {"k": "path", "segs": [rng.pick(locals).0]}}),
         7 if !locals.is_empty() => json!({"k": "mcall", "recv": {"k": "path", "segs": [rng.pick(locals).0]}, "method": "clone", "args": []}),
         8 => json!({"k": "tuple", "es": []}),
-        9 => json!({"k": "call", "func": {"k": "path", "segs": ["compute"]}, "args": []}),
-        10 => json!({"k": "path", "segs": ["unknown_var"]}),
+        9 if adversarial => json!({"k": "call", "func": {"k": "path", "segs": ["compute"]}, "args": []}),
+        10 if adversarial => json!({"k": "path", "segs": ["unknown_var"]}),
         _ => json!({"k": "lit", "text": "\"x\"", "lit": "str"}),
     };
     let name_expr = if rng.chance(1, 12) {
@@ -654,8 +674,11 @@ pub fn random_project(rng: &mut Rng, nfiles: usize, adversarial: bool) -> Value 
         }
         let ret = match rng.below(5) {
             0 => Value::Null,
-            1 => ty_json(&any_ty(rng, &type_names, 2, adversarial)),
-            _ => ty_json(&RTy::Res2(Box::new(any_ty(rng, &type_names, 2, adversarial)), Box::new(RTy::Prim("String".into())))),
+            1 => ty_json(&if adversarial { any_ty(rng, &type_names, 2, true) } else { safe_ret(rng, &type_names) }),
+            _ => {
+                let ok = if adversarial { any_ty(rng, &type_names, 2, true) } else { safe_ret(rng, &type_names) };
+                ty_json(&RTy::Res2(Box::new(ok), Box::new(RTy::Prim("String".into()))))
+            }
         };
         let mut body: Vec<Value> = Vec::new();
         if rng.chance(1, 3) {
@@ -664,7 +687,7 @@ pub fn random_project(rng: &mut Rng, nfiles: usize, adversarial: bool) -> Value 
             locals.push(("local_v".into(), tn));
         }
         for _ in 0..rng.below(3) {
-            let e = emit_expr(rng, &ev_names, &type_names, &locals);
+            let e = emit_expr(rng, &ev_names, &type_names, &locals, adversarial);
             body.push(wrap_emit(rng, e));
         }
         body.push(json!({"k": "other", "text": "todo!()"}));
@@ -690,7 +713,7 @@ pub fn random_project(rng: &mut Rng, nfiles: usize, adversarial: bool) -> Value 
             let mut body = Vec::new();
             let locals = vec![("data".to_string(), "User0".to_string())];
             if rng.chance(1, 2) {
-                let e = emit_expr(rng, &ev_names, &type_names, &locals);
+                let e = emit_expr(rng, &ev_names, &type_names, &locals, adversarial);
                 body.push(wrap_emit(rng, e));
             }
             let tn = if type_names.is_empty() { "String".to_string() } else { rng.pick(&type_names).clone() };
